@@ -325,5 +325,19 @@ theorem randPoly_length (d : Nat) (draws r rest : List F) (h : randPoly d draws 
       rw [List.take_append_of_le_length (by simp; omega)]
       rw [List.take_take]; simp
 
+/-- `open` returns `random_v = Some(..)` whenever the blinding polynomial is non-zero -/
+theorem open_rv_some (pw : Powers F) (p : List F) (z : F) (r : List F) (π : Proof F)
+    (h : KZG.open pw p z r = .ok π) (hr : isZeroPoly r = false) : ∃ v, π.rv = some v := by
+  unfold KZG.open at h
+  split at h
+  · cases h
+  · simp only [witness, hr] at h
+    unfold openWith at h
+    split at h
+    · cases h
+    · simp only [Bool.false_eq_true, if_false] at h
+      injection h with h
+      exact ⟨_, by rw [← h]⟩
+
 end KZG
 end PCV
